@@ -318,10 +318,17 @@ func checkNonEmptyFieldInvariant(w *core.World, r *core.Report, rule string, lf 
 	}
 	for _, fn := range w.LibFuncs {
 		cut := core.NewCut()
+		var gb *core.Bounds
 		for _, in := range allInstrs(fn) {
 			if st, ok := in.(*ssa.Store); ok {
 				if t2, f2, ok := core.FieldOfAddr(st.Addr); ok && t2 == tn && f2 == f && isAppendSelf(st.Val) {
-					cut.AddInstr(st)
+					if gb == nil {
+						gb = core.NewBounds(fn, intBits(w))
+					}
+					// the appended part holds at least k elements (append(x) and append(x, empty...) grow nothing)
+					if gb.ProveLenGEAt(st, st.Val, k) {
+						cut.AddInstr(st)
+					}
 				}
 			}
 		}
@@ -361,6 +368,14 @@ func checkNonEmptyFieldInvariant(w *core.World, r *core.Report, rule string, lf 
 				for _, c := range core.Calls(fn) {
 					if g := core.StaticCallee(c); g != nil && growers[g] {
 						cut.AddInstr(c.(ssa.Instruction))
+					}
+				}
+				// ... or an append to the field written out in place (a grower inlined)
+				for _, in2 := range allInstrs(fn) {
+					if st2, ok := in2.(*ssa.Store); ok && st2 != st {
+						if t3, f3, ok := core.FieldOfAddr(st2.Addr); ok && t3 == tn && f3 == f && isAppendSelf(st2.Val) && bd.ProveLenGEAt(st2, st2.Val, k) {
+							cut.AddInstr(st2)
+						}
 					}
 				}
 				lo, _, okR := bd.RangeAt(st, sl.High)
